@@ -201,7 +201,7 @@ equivalent("c20-eq-dict-snapshot", "C20", (L, "rollback_settings = vars(self).co
 equivalent("c20-eq-renamed-locals", "C20", (L, CTX, CTX.replace("rollback_settings", "saved").replace("for key, value in context_settings.items():\n                setattr(self, key, saved[key])", "for k, _v in context_settings.items():\n                setattr(self, k, saved[k])")))
 
 # ------------------------------------------------------------------------------------------ C12
-DEFUZ = """        value = self.defuzzifier.defuzzify(self.fuzzy, self.minimum, self.maximum)
+DEFUZ = """        value = scalar(self.defuzzifier.defuzzify(self.fuzzy, self.minimum, self.maximum))
 
         # previous value is the last element of the value at t
         self.previous_value = np.take(self.value, -1).astype(float)
@@ -223,7 +223,7 @@ DEFAULT = """        # Applying default values
 mutant("c12-default-before-lock", "C12", (V, LOCK + "\n" + DEFAULT, DEFAULT + "\n" + LOCK), "O4/OutputVariable.defuzzify/order")
 mutant("c12-previous-before-defuzzify", "C12", (V, DEFUZ, """        # previous value is the last element of the value at t
         self.previous_value = np.take(self.value, -1).astype(float)
-        value = self.defuzzifier.defuzzify(self.fuzzy, self.minimum, self.maximum)
+        value = scalar(self.defuzzifier.defuzzify(self.fuzzy, self.minimum, self.maximum))
 """), "O2/")
 mutant("c12-capture-after-commit", "C12", [(V, """
         # previous value is the last element of the value at t
@@ -1232,3 +1232,71 @@ mutant("c03-triangle-outside-nan", "C03", (T, """            * np.where(
                 nan,
                 np.where(
                     (x == b) | ((a == -inf) & (x < b)) | ((c == inf) & (x > b)),"""), "A1b/Triangle.membership")
+
+# ------------------------------------------------------------------------------------------ seeded-change classes
+HIGHEST_BODY = """                if activation_degree > 0.0:
+                    heapq.heappush(activate, (-activation_degree, index))
+
+        activated = 0
+        while activate and activated < self.rules:
+            index = heapq.heappop(activate)[1]
+            rule_block.rules[index].trigger(implication)
+            activated += 1
+
+
+class Lowest"""
+BOUNDED = """                if activation_degree > 0.0:
+                    if len(activate) < self.rules:
+                        heapq.heappush(activate, (activation_degree, KEYIDX))
+                    elif activate and activation_degree > activate[0][0]:
+                        heapq.heapreplace(activate, (activation_degree, KEYIDX))
+
+        for _, index in sorted(activate, key=lambda item: (-item[0], SORTIDX)):
+            rule_block.rules[abs(index)].trigger(implication)
+
+
+class Lowest"""
+mutant("seed-c08-bounded-heap-wrong-ties", "C08", (A, HIGHEST_BODY, BOUNDED.replace("KEYIDX", "index").replace("SORTIDX", "item[1]")), "K1/Highest.activate/heap-key")
+equivalent("seed-c08-eq-bounded-heap-correct", "C08", (A, HIGHEST_BODY, BOUNDED.replace("KEYIDX", "-index").replace("SORTIDX", "-item[1]")))
+mutant("seed-c07-break-on-disabled", ["C07", "C01"], (R, """            if proposition.variable.enabled:
+                for hedge in reversed(proposition.hedges):""", """            if not proposition.variable.enabled:
+                break
+            if proposition.variable.enabled:
+                for hedge in reversed(proposition.hedges):"""), "P5/Consequent.modify/all-conclusions")
+mutant("seed-c10-lru-cache", ["C10", "C13", "C01"], [(D, "import enum\nimport typing\n", "import enum\nimport functools\nimport typing\n"), (D, "    @classmethod\n    def infer_type(", "    @classmethod\n    @functools.lru_cache(maxsize=None)\n    def infer_type(")], "H8/")
+mutant("seed-c12-shift-by-one", ["C12", "C02"], (V, """            with np.nditer(value, op_flags=[["readwrite"]]) as iterator:
+                previous_value = self.previous_value
+                for value_i in iterator:
+                    if np.isnan(value_i):
+                        value_i[...] = previous_value  # type:ignore
+                    else:
+                        previous_value = value_i  # type: ignore
+""", """            preceding = np.append(self.previous_value, value.flat[:-1]).reshape(value.shape)
+            value = np.where(np.isnan(value), preceding, value)
+"""), "OutputVariable.defuzzify/lock-fill")
+mutant("seed-c02-skip-inf", ["C02", "C12"], (V, "                    else:\n                        previous_value = value_i  # type: ignore", "                    elif np.isfinite(value_i):\n                        previous_value = value_i  # type: ignore"), "OutputVariable.defuzzify/lock-fill")
+mutant("seed-c06-or-short-circuit", ["C06", "C01"], (R, """                return disjunction.compute(
+                    self.activation_degree(conjunction, disjunction, node.left),
+                    self.activation_degree(conjunction, disjunction, node.right),
+                )
+
+            raise ValueError(f"operator""", """                left = self.activation_degree(conjunction, disjunction, node.left)
+                if array(left >= 1.0).all():
+                    return left
+                return disjunction.compute(left, self.activation_degree(conjunction, disjunction, node.right))
+
+            raise ValueError(f"operator"""), "P9/Antecedent.activation_degree/operator-or")
+mutant("seed-c09-isclose-maximum", "C09", (D, """        y_max = (y > 0) & (y == y.max(axis=1, keepdims=True))
+        mom = np.where(y_max, x, np.nan)""", """        y_max = (y > 0) & np.isclose(y, y.max(axis=1, keepdims=True))
+        mom = np.where(y_max, x, np.nan)"""), "MeanOfMaximum")
+mutant("seed-c08-first-break-after-n", "C08", (A, """                    rule.trigger(implication)
+                    activated += 1
+
+
+class Last""", """                    rule.trigger(implication)
+                    activated += 1
+                    if activated >= self.rules:
+                        break
+
+
+class Last"""), "O-all/First.activate")
